@@ -353,6 +353,19 @@ class MoleculeResolver:
             if node_to_keep == node_to_remove:
                 continue
             squashed[node_to_remove] = node_to_keep
+            # the remaining atom takes over the bonds of the removed one, so
+            # its provisional hydrogen count is reduced in the same way as
+            # for bonds made from other bonding descriptors
+            if 'hcount' in self.molecule.nodes[node_to_keep]:
+                hcount = self.molecule.nodes[node_to_keep]['hcount']
+                for neighbor in self.molecule.neighbors(node_to_remove):
+                    if neighbor == node_to_keep:
+                        continue
+                    if self.molecule.nodes[node_to_keep].get('aromatic', False):
+                        hcount = max(0, hcount - 1.5)
+                    else:
+                        hcount = max(0, hcount - 1)
+                self.molecule.nodes[node_to_keep]['hcount'] = hcount
             self.molecule = nx.contracted_nodes(self.molecule,
                                                 node_to_keep,
                                                 node_to_remove,
